@@ -93,6 +93,7 @@ def extract_tables(path, max_rows=60):
         # rows: first block of consecutive lines that carry numbers
         j = i + 1
         while j < n and j < i + 8 and not _FLOATISH.search(lines[j]): j += 1
+        between = lines[i + 1:j]
         rows = []
         while j < n and len(rows) < max_rows and _FLOATISH.search(lines[j]) and _is_header(lines[j]) is None \
                 and lines[j][1:6] not in ('EEEEE', 'CCCCC', 'GGGGG'):
@@ -103,7 +104,7 @@ def extract_tables(path, max_rows=60):
                 kind = 'element%d' % nelt      # further element tables (TOUGH+)
             if kind not in [t['kind'] for t in out]:
                 seen[sig] = True
-                out.append(dict(kind=kind, header=l, rows=rows, line_no=i + 1, family=fam, nkeys=nk,
+                out.append(dict(kind=kind, header=l, rows=rows, between=between, line_no=i + 1, family=fam, nkeys=nk,
                                 colnames0=toks[nk + 1] if len(toks) > nk + 1 else ''))
         i = j if rows else i + 1
     return fam, out
@@ -227,3 +228,45 @@ def printed_keys(row, first_value_start, nkeys):
         k -= KEYLEN
     pos.reverse()
     return pos
+
+
+# ---------------------------------------------------------------------------
+# a miniature listing table in memory, for running the real setup_table_* / read_table_*
+
+class _Raw(object):
+    """what file.readline() returns in binary mode: only .decode() is used by t2listing.readline"""
+    def __init__(self, line): self.line = line
+    def decode(self, encoding=None): return self.line
+
+class LineFile(object):
+    """stand-in for t2listing._file: a list of lines (str or symbolic strings);
+    positions are line numbers."""
+    def __init__(self, lines): self.lines, self.pos = list(lines), 0
+    def readline(self):
+        if self.pos < len(self.lines):
+            l = self.lines[self.pos]; self.pos += 1
+        else: l = ''
+        return _Raw(l)
+    def tell(self): return self.pos
+    def seek(self, pos): self.pos = pos
+    def close(self): pass
+
+
+def mini_table_lines(family, kind, header, between, rows):
+    """Text of one table holding just `rows`, laid out as the simulator prints it, so that
+    the real setup_table_* and read_table_* can be run on it from line 0.
+    Returns (lines, index of the first row)."""
+    if family == 'AUTOUGH2':
+        marker = ' ' + kind[0].upper() * 130 + '\n'
+        pre = [marker, ' ' * 50 + kind.upper() + ' TABLE\n', '\n', header, '\n']
+        post = [marker, '\n']
+    else:
+        pre = [header] + list(between)
+        post = ['\n', ' ' + '@' * 131 + '\n', '\n']
+    return pre + list(rows) + post, len(pre)
+
+
+def row_index_value(row, first_value_start):
+    """the printed row index (integer before the values), or None"""
+    m = re.search(r'(\d+)\s*$', row[:first_value_start])
+    return int(m.group(1)) if m else None
